@@ -15,7 +15,7 @@ import datetime as _dt
 from detsim import kernel
 from detsim.kernel import EventLog, short_hash
 from detsim.simfs import SimFS, SimCrash
-from detsim.simclock import SimClock, make_datetime_class
+from detsim.simclock import SimClock, install_clock_seam, restore_seam
 from checks.common import CheckBase
 from checks import c18_sinex as sx
 
@@ -171,7 +171,9 @@ class C18(CheckBase):
         fs = SimFS(cwd='/sim/work')
         clock = SimClock()
         gnss.open = fs.open
-        gnss.datetime = make_datetime_class(clock)
+        saved_clock = install_clock_seam(gnss, clock)
+        if not saved_clock:
+            raise kernel.HarnessError('clock seam not found: geodepy.gnss has no module-level reference to datetime / time')
         viol = []
         stats = {}
         sigset = set()
@@ -196,7 +198,7 @@ class C18(CheckBase):
                 self._do_op(op, st, fs, clock, faults_at.get(op.get('id'), []), V, bump, log, sigset, clockset)
         finally:
             gnss.open = open
-            gnss.datetime = self.real_datetime
+            restore_seam(gnss, saved_clock)
         for t in clock.reads:
             clockset['sod'].add(t.hour * 3600 + t.minute * 60 + t.second)
             clockset['days'].add(t.date().isoformat())
@@ -319,6 +321,7 @@ class C18(CheckBase):
                     continue
                 clock.set(_dt.datetime.fromisoformat(t2))
             nreads0 = len(clock.reads)
+            nopens0 = len(fs.opens)
             fs.clear_faults()
             fkind = 'none'
             for f in faults:
@@ -345,6 +348,14 @@ class C18(CheckBase):
             fs.clear_faults()
             fault_fired = fs.fired != fired0
             reads = clock.reads[nreads0:]
+            # the seams must have been used: an edit that never opened the simulated input, or that
+            # produced an output without reading the simulated clock, ran outside the simulation
+            opened = [p for p, m in fs.opens[nopens0:]]
+            if fs.abspath(st['cur']) not in opened:
+                raise kernel.HarnessError('storage seam bypassed: %s did not open its input through geodepy.gnss.open (%s: %s)'
+                                          % (kind, type(exc).__name__ if exc else 'returned', str(exc)[:200] if exc else ''))
+            if status == 'ok' and not reads:
+                raise kernel.HarnessError('clock seam bypassed: %s returned without reading the simulated clock' % kind)
             tcls = clock_class(reads[0]) if reads else 'no-clock-read'
             log.add('edit', kind, which, status, type(exc).__name__ if exc else '-', [t.isoformat() for t in reads])
             sigset.add('%s|%s|%s|%s|%s' % (kind, self._layout(model), sub, tcls, fkind if fault_fired else 'none'))
@@ -512,6 +523,7 @@ class C18(CheckBase):
         model = st['model']
         st['judged'] += 1
         sigset.add('%s|%s|depth%d' % (kind, self._layout(model), min(st['depth'], 2)))
+        nopens0 = len(fs.opens)
         try:
             if kind == 'read_estimate':
                 got = gnss.read_sinex_estimate(st['cur'])
@@ -520,9 +532,14 @@ class C18(CheckBase):
             else:
                 got = gnss.read_sinex_sites(st['cur'])
         except Exception as e:
+            if fs.abspath(st['cur']) not in [p for p, m in fs.opens[nopens0:]]:
+                raise kernel.HarnessError('storage seam bypassed: %s did not open its input through geodepy.gnss.open (%s: %s)'
+                                          % (kind, type(e).__name__, str(e)[:200]))
             log.add(kind, 'raised', type(e).__name__)
             V('reader-raised', kind, {'exc': type(e).__name__, 'msg': str(e)[:300]})
             return
+        if fs.abspath(st['cur']) not in [p for p, m in fs.opens[nopens0:]]:
+            raise kernel.HarnessError('storage seam bypassed: %s returned without opening its input through geodepy.gnss.open' % kind)
         log.add(kind, len(got), short_hash(repr(got), 12))
         per = model.per
         if kind == 'read_estimate':
